@@ -719,6 +719,14 @@ pub fn run(rep: &mut Report) {
             }
         });
     }
+    // order independence over a whole calendar year: the weekday / date rendering of every day of 2021 after every other day
+    // (133 225 ordered pairs): a memo whose key packs year, month and day with overlapping or truncated fields aliases two
+    // dates of one year, whatever their distance
+    {
+        let d0 = days1900(2021, 1, 1);
+        let lp = &leap;
+        crate::engine::order_pairs(rep, "c19.order[year]", 365, |i, out| j_render(&['A', 'w', 'Y', 'm', 'd', 'j'], &[2, 2, 1, 1, 2], super::c08::expected_count(d0 + i as i64, 43_200 * NS_S, TimeScale::UTC), TimeScale::UTC, lp, out));
+    }
     sweep(rep, "c19.parse_back", pf.len() as u64 * nu, |i, out| j_parse_back(&pf[(i / nu) as usize], utc[(i % nu) as usize], out));
     // sub-second variety: the lattice above carries few nanosecond patterns; every format family with %f is driven over
     // a spread of 1 500 (time of day, nanosecond) pairs on three days - a float intermediate in one parser branch shows
